@@ -8,7 +8,7 @@ if ! git diff --quiet; then echo "/repo has uncommitted changes; refusing"; exit
 git apply /verif/seeded/$ID/patch.diff || { echo "patch does not apply"; exit 3; }
 LOG=/tmp/vs/seed_${ID}_${CHK}.log
 t0=$(date +%s)
-( cd /verif && ./check $CHK --tier $TIER "$@" ) > $LOG 2>&1; RC=$?
+( cd /verif && VERIF_EVIDENCE_DIR=/tmp/vs/ev_seed VERIF_REPLAY_DIR=/tmp/vs/replays_seed ./check $CHK --tier $TIER "$@" ) > $LOG 2>&1; RC=$?
 t1=$(date +%s)
 git checkout -- .
 python3 - "$ID" "$CHK" "$TIER" "$RC" "$((t1-t0))" "$LOG" "$*" <<'PY'
